@@ -16,6 +16,7 @@ import Drv.Adapter
 import Drv.DramFifo
 import Drv.Avalon
 import Drv.Wishbone
+import Drv.Axi
 open DrvUtil
 
 def main (args : List String) : IO UInt32 := do
@@ -41,6 +42,8 @@ def main (args : List String) : IO UInt32 := do
   | ["wbw2n"] => foldLines i o none drvWbW2N; return 0
   | ["wbup"] => foldLines i o none drvWbUp; return 0
   | ["wbn2w"] => foldLines i o none drvWbN2W; return 0
+  | ["axi"] => foldLines i o none drvAxi; return 0
+  | ["aximon"] => foldLines i o none drvAxiMon; return 0
   | ["injector"] => foldLines i o none drvInjector; return 0
   | ["ratemon"] => foldLines i o none drvRateMon; return 0
   | ["rateconv"] => foldLines i o none drvRateConv; return 0
